@@ -538,9 +538,21 @@ func c08Instance(c *Ctx, d c08Desc, _ bool) *c08Result {
 			}
 			entry := fmt.Sprintf("%s/%d/%s", e.Op, e.Status, e.Etype)
 			if e.Status == 0 {
-				entry = e.Op + "/cancelled"
+				continue // the party was killed while the call was parked: teardown detail (C09), timing dependent
+			}
+			if e.Op == "extnext" && e.Len < 120 {
+				continue // SHUTDOWN event (shorter than any INVOKE event): whether a dying generation's extension still polls when the reset arrives is timing dependent
 			}
 			res.Parties[src] = append(res.Parties[src], entry)
+		}
+	}
+	if d.Suffix == "crash" || d.Suffix == "initerror" {
+		// what the extensions of the generation that dies in the suffix still manage to read before they
+		// are torn down is timing dependent: only their existence (exec requests) is compared
+		for k := range res.Parties {
+			if strings.Contains(k, "extension-") && strings.HasSuffix(k, "+0") {
+				delete(res.Parties, k)
+			}
 		}
 	}
 	sort.Strings(supOther)
@@ -565,9 +577,19 @@ func c08Instance(c *Ctx, d c08Desc, _ bool) *c08Result {
 				res.Parties[key] = append(res.Parties[key], "register:"+string(h.Resp.Body))
 			case "extnext":
 				ev := parseExtEvent(h.Resp.Body)
+				if ev.EventType == "SHUTDOWN" {
+					continue
+				}
 				res.Parties[key] = append(res.Parties[key], fmt.Sprintf("extnext:%s/%s/%s/%s/%s", ev.EventType, idOrd(ev.RequestID), ev.InvokedFunctionArn, ev.ShutdownReason, ev.Tracing.Value))
 			case "next":
 				res.Parties[key] = append(res.Parties[key], fmt.Sprintf("next:%s/%s/%s", idOrd(h.Resp.ReqID()), vh.Digest(h.Resp.Body), h.Resp.Header.Get("Lambda-Runtime-Invoked-Function-Arn")))
+			}
+		}
+	}
+	if d.Suffix == "crash" || d.Suffix == "initerror" {
+		for k := range res.Parties {
+			if strings.Contains(k, "extension-") && strings.HasSuffix(k, "+0") {
+				delete(res.Parties, k)
 			}
 		}
 	}
